@@ -357,7 +357,12 @@ def h_cancelled(eng, case):
         if second < n and second != victim:
             ts[second].cancel()
         try:
-            await app._receive(6, data)          # before the cancelled waiters get to run
+            if case.get('event') == 'nack':
+                # a Nack for the name arrives instead (before the cancelled waiters get to run)
+                nk = enc.make_network_nack(face.out[0], 150)
+                await app._receive(0x64, nk)
+            else:
+                await app._receive(6, data)          # before the cancelled waiters get to run
         except Exception as e:
             eng.fail('receive-returns', exc_sig(e), repr(e)[:120])
         for _ in range(6):
@@ -379,7 +384,8 @@ def h_cancelled(eng, case):
     for i in range(n):
         if i == victim or i == second:
             continue
-        eng.check(res[i] == ('data', b'ok'), 'unrelated-state-unaffected', {'consumer': i, 'outcome': repr(res[i])},
+        want = ('InterestNack',) if case.get('event') == 'nack' else ('data', b'ok')
+        eng.check(res[i] == want, 'unrelated-state-unaffected', {'consumer': i, 'outcome': repr(res[i])},
                   sig='waiter-next-to-a-cancelled-one-not-served')
     eng.observe('res', [repr(x) for x in res])
     eng.reach('end')
@@ -485,6 +491,36 @@ def h_stray_nack(eng, case):
     _robust(eng, dict(case, strict=True, state=3), case['front'], 0x64, tobytes(wire))
 
 
+def h_robust_log(eng, case):
+    """the same deliveries with DEBUG logging switched on for the library (log arguments are evaluated then): concrete
+    packets, incl. Data without Content / with empty Content / without MetaInfo"""
+    import logging
+    import ndn.encoding as enc
+    P = _valid_packets()
+    P['data_nocontent'] = (6, bytes(enc.make_data('/a/b', enc.MetaInfo(), None)))
+    P['data_emptycontent'] = (6, bytes(enc.make_data('/a/b', enc.MetaInfo(), b'')))
+    P['data_nometa'] = (6, bytes(enc.make_data('/a/b', None, b'zz')))
+    P['data_nocontent_other'] = (6, bytes(enc.make_data('/x/y', None, None)))
+    typ, w = P[case['pkt']]
+    root = logging.getLogger('ndn')
+    old_level = root.level
+    h = logging.NullHandler()
+    logging.disable(logging.NOTSET)
+    root.setLevel(logging.DEBUG)
+    root.addHandler(h)
+    try:
+        _robust(eng, case, case['front'], typ, w)
+    finally:
+        root.removeHandler(h)
+        root.setLevel(old_level)
+        logging.disable(logging.CRITICAL)
+
+
+ROBUST_LOG_PACKETS = ['interest', 'interest_params', 'data', 'data_other', 'nack', 'lp_data', 'lp_token', 'lp_nofrag',
+                      'lp_frag', 'lp_emptyfrag', 'unknown', 'data_nocontent', 'data_emptycontent', 'data_nometa',
+                      'data_nocontent_other']
+
+
 def h_udp(eng, case):
     """UdpFace: a datagram of arbitrary bytes must not raise out of datagram_received"""
     from ndn.transport.udp_face import UdpFace
@@ -524,13 +560,16 @@ def h_udp(eng, case):
     eng.reach('end')
 
 
-HARNESSES = {'partial': h_partial, 'stray_nack': h_stray_nack, 'cancelled': h_cancelled, 'fragment': h_fragment, 'frame_sym': h_frame_sym, 'frame_cuts': h_frame_cuts, 'robust_sym': h_robust_sym,
+HARNESSES = {'robust_log': h_robust_log, 'partial': h_partial, 'stray_nack': h_stray_nack, 'cancelled': h_cancelled, 'fragment': h_fragment, 'frame_sym': h_frame_sym, 'frame_cuts': h_frame_cuts, 'robust_sym': h_robust_sym,
              'robust_mut': h_robust_mut, 'udp': h_udp}
 
 
 def cases(tier, seed):
     quick = tier == 'quick'
     cs = []
+    for front in ('v2', 'v1'):
+        for pk in ROBUST_LOG_PACKETS:
+            cs.append(('robust_log', {'front': front, 'state': 3, 'pkt': pk}, {'weight': 1}))
     for front in ('v2', 'v1'):
         for variant in ('prefix', 'digest'):
             cs.append(('partial', {'front': front, 'variant': variant}, {'weight': 3}))
@@ -540,6 +579,7 @@ def cases(tier, seed):
     for front in ('v2', 'v1'):
         for n in (1, 2, 3):
             cs.append(('cancelled', {'front': front, 'consumers': n}, {'weight': 3}))
+            cs.append(('cancelled', {'front': front, 'consumers': n, 'event': 'nack'}, {'weight': 3}))
     for front in ('v2', 'v1'):
         for payload in ('data', 'interest'):
             for hs in ('index', 'index+count', 'count'):
